@@ -246,6 +246,10 @@ def stop_read_log(o=None):
     raise NotReplayable("read-set obligations are symbolic-only")
 
 
+def extract_block(qualname, first, last, params):
+    raise NotReplayable("block extraction is symbolic-only")
+
+
 def withheld(name):
     raise NotReplayable("dependence-set obligations are symbolic-only")
 
